@@ -3,6 +3,7 @@ package mxj
 func init() {
 	vHarnesses["H_C16_order"] = H_C16_order
 	vHarnesses["H_C16_names"] = H_C16_names
+	vHarnesses["H_C16_repeat"] = H_C16_repeat
 	vHarnesses["H_C16_order_seq"] = H_C16_order_seq
 	vHarnesses["H_C16_variants"] = H_C16_variants
 	vHarnesses["H_C16_maps"] = H_C16_maps
@@ -58,6 +59,7 @@ func H_C16_order() {
 	vOrderAll(false)
 	vAssert(e0 == nil && e1 == nil, "order: encodes")
 	vAssert(vBytesEq(x0, x1), "order: the encoding is byte-identical under every map iteration order")
+	vAssert(len(x0) > 0, "order: the encoding is not empty")
 	// encode a different Map in between: earlier results must not change under our feet
 	keep := string(x0)
 	other := Map{"q": map[string]interface{}{"zz": "1"}}
@@ -137,6 +139,8 @@ func H_C16_order_seq() {
 // indented vs compact, writer forms, raw forms
 func H_C16_variants() {
 	vResetDecOpts()
+	XmlCheckIsValid(vChoose(2) == 1) // the variants agree with the validity check on as well
+	defer XmlCheckIsValid(false)
 	m := vNondetOrderMap(2, 1)
 	indentStr := []string{"", " ", "  "}[vChoose(3)]
 	prefix := []string{"", " "}[vChoose(2)]
@@ -280,4 +284,45 @@ func H_C16_names() {
 	m2, derr := NewMapXml(x)
 	vAssert(derr == nil && vDeepEq(m2["r"], inner), "names: nothing is lost")
 	vCover("names")
+}
+
+// repeated calls on one Map, in every order of the encoders, give the same bytes as the
+// first call and as an equal Map built afresh: mixed content, attributes, lists, empty values
+func H_C16_repeat() {
+	vResetDecOpts()
+	build := func(t, v string) Map {
+		return Map{"r": map[string]interface{}{
+			"#text": t, "-a": v, "k": []interface{}{v, map[string]interface{}{"#text": t, "z": ""}}, "e": map[string]interface{}{},
+		}}
+	}
+	t, v := vNondetString(0, 1, "tu"), vNondetString(1, 1, "12")
+	m := build(t, v)
+	fresh := build(t, v)
+	enc := func(mm Map, i int) []byte {
+		var b []byte
+		switch i {
+		case 0:
+			b, _ = mm.Xml()
+		case 1:
+			b, _ = mm.XmlIndent("", " ")
+		case 2:
+			b, _ = mm.Json()
+		default:
+			w := &vWriter{}
+			_ = mm.XmlWriter(w)
+			b = w.buf
+		}
+		return b
+	}
+	first, second := vChoose(4), vChoose(4)
+	want1 := string(enc(fresh, first))
+	fresh2 := build(t, v)
+	want2 := string(enc(fresh2, second))
+	got1 := string(enc(m, first))
+	got2 := string(enc(m, second))
+	got3 := string(enc(m, first))
+	vAssert(got1 == want1, "repeat: the first encoding equals that of an equal Map")
+	vAssert(got2 == want2, "repeat: an encoding after another encoder has run equals that of an equal fresh Map")
+	vAssert(got3 == want1, "repeat: encoding again gives the same bytes")
+	vCover("repeat")
 }
